@@ -305,5 +305,24 @@ def run(case):
             if ok1 and okb and okh:
                 e = np.abs(br - (lr - lh)).max()
                 out.check(e < 1e-9 * max(1.0, np.abs(x).max()), "resolution:bandpass_not_difference_of_lowpasses", f"{e} shape={shape}")
+    # maps given as files and results written to files: same answers as for arrays (every 4th case, cheap boxes only)
+    if case["seed"] % 4 == 0 and x.size <= 20000 and not out.violations:
+        from vlib import oracle as _o
+        ext = ".mrc" if case["seed"] % 8 == 0 else ".em"
+        x32 = x.astype(np.float32)
+        (_o.mrc_write if ext == ".mrc" else _o.em_write)("map" + ext, x32)
+        out.label(f"file_input:{ext}")
+        for name, fn, kw_ in (("lowpass", cryomap.lowpass, {"fourier_pixels": r, "gaussian": s}), ("highpass", cryomap.highpass, {"fourier_pixels": r, "gaussian": s})):
+            okf, rf = call(out, name + "(file)", lambda: fn("map" + ext, output_name="res" + ext, **kw_))
+            oka, ra = call(out, name + "(array)", lambda: fn(x32.copy(), **kw_))
+            if okf and oka:
+                if out.check(rf.shape == ra.shape, f"{name}:file_input_result_shape", f"{rf.shape} vs {ra.shape}"):
+                    out.check(np.abs(rf - ra).max() <= 1e-6 * max(1.0, np.abs(ra).max()), f"{name}:file_input_result_differs_from_array_input", f"{np.abs(rf - ra).max()}")
+                try:
+                    fl = (_o.mrc_read if ext == ".mrc" else _o.em_read)("res" + ext)
+                    if out.check(tuple(fl["dims"]) == tuple(ra.shape), f"{name}:output_file_dims", f"{fl['dims']} vs {ra.shape}"):
+                        out.check(np.abs(fl["data"] - ra).max() <= 1e-5 * max(1.0, np.abs(ra).max()), f"{name}:output_file_does_not_hold_the_result", "")
+                except Exception as e:
+                    out.fail(f"{name}:output_file_unreadable", repr(e))
     out.check(np.array_equal(x, keep), "input_modified", "after all calls")
     return out
